@@ -28,8 +28,10 @@ Mixed(order) ==
   ELSE IF order = 3 THEN {<<BC(0, 1, ROne), BC(1, 2, RZero)>>, <<BC(0, 2, RZero), BC(1, 2, RZero)>>,     \* natural spline
                           <<BC(1, 1, FromInt(-2)), BC(1, 3, ROne)>>, <<BC(0, 3, RZero), BC(1, 3, RZero)>>}
   ELSE {<<BC(0, 1, ROne), BC(1, 1, RZero), BC(1, 2, RZero)>>, <<BC(0, 2, RZero), BC(1, 2, RZero), BC(0, 4, ROne)>>}
+\* every condition with its own non-zero value
+AllNZ(order, node) == [i \in 1..(order - 1) |-> BC(node, i, R(2 * i - 5, 2))]
 BcSets(order) ==
-  {AllAt(order, 0, ROne), AllAt(order, 1, FromInt(-2)), AllAt(order, 0, RZero)} \cup Mixed(order)
+  {AllAt(order, 0, ROne), AllAt(order, 1, FromInt(-2)), AllAt(order, 0, RZero), AllNZ(order, 0), AllNZ(order, 1)} \cup Mixed(order)
 
 CasesFor(x) ==
   LET n == SupSize(x) IN
